@@ -63,6 +63,11 @@ CLAIMS = {
             'deferred command: skeleton shape, distinct letters, and a per-word proof that the formatter cannot produce '
             'exponent notation (fixed-point spec, integer, or helper whose every return is guarded by a test for an exponent marker)',
             'finiteness of the values is not decided'),
+    'C08': ('conversion laws of AxisPosition as polynomial identities (round trips in both modes, firmware map, G92 law, '
+            'homing), native arguments of the region tests, sibling agreement of G20/G21/G90/G91 over all axes and the feed '
+            'rate, ownership census of the axis fields, mode validity of the arc handlers\' coordinates',
+            'decides the inch / relative / G92 re-encodings up to exact arithmetic; translation by a common vector and '
+            'round-off near borders are not decided; G92 law and relative-mode arcs are recorded known findings'),
     'C09': ('every abstract path of every handler: result shape None / IGNORE / non-empty list of non-empty commands; '
             'every partial operation (division, sqrt, index, None arithmetic, raise) forks an exceptional path that '
             'must be infeasible under the sign/order facts of the path',
